@@ -8,7 +8,7 @@ BUILD = os.path.join(ROOT, ".build")
 REPO = "/repo"
 NCPU = os.cpu_count() or 4
 
-GOENV = dict(os.environ, GOFLAGS="-mod=mod", GOPROXY="off", GOSUMDB="off",
+GOENV = dict(os.environ, VERIF_ROOT=ROOT, GOFLAGS="-mod=mod", GOPROXY="off", GOSUMDB="off",
              GOTOOLCHAIN="local", GOWORK="off", CGO_ENABLED=os.environ.get("CGO_ENABLED", "0"))
 
 # Axioms of the standard library that may appear under a theorem (each is reported in the evidence).
@@ -29,8 +29,9 @@ GATE_RE = re.compile(r"\b(Admitted|admit|Axiom|Axioms|Parameter|Parameters|Conje
 PROPS = {}
 
 def load_props():
-    with open(os.path.join(ROOT, "lib", "props.json")) as f:
-        PROPS.update(json.load(f))
+    for p in sorted(glob.glob(os.path.join(ROOT, "lib", "props.d", "*.json"))):
+        with open(p) as f:
+            PROPS[os.path.basename(p)[:-5]] = json.load(f)
 
 # ---------------------------------------------------------------- helpers
 def sh(cmd, cwd=None, env=None, timeout=None, input=None):
